@@ -56,7 +56,8 @@ NoHk == [ev |-> "", seq |-> <<>>, i |-> 0, j |-> 0, rev |-> 0, defs |-> <<>>, ok
 
 NoU == [kind |-> "none", chart |-> "none", replace |-> FALSE, atomic |-> FALSE, cleanup |-> FALSE,
         keep |-> FALSE, nohooks |-> FALSE, lim |-> 0, ver |-> 0, dry |-> FALSE, takeown |-> FALSE,
-        clientOnly |-> FALSE, createNS |-> FALSE, skipCRDs |-> FALSE, force |-> FALSE, install |-> FALSE]
+        clientOnly |-> FALSE, createNS |-> FALSE, skipCRDs |-> FALSE, force |-> FALSE, install |-> FALSE,
+        incCRDs |-> FALSE]      \* helm template --include-crds: the crds/ objects join the rendered manifest of a dry run
 
 NoOp == [u |-> NoU,
          keep |-> FALSE, nohooks |-> FALSE, ver |-> 0, lim |-> 0, cleanup |-> FALSE,
@@ -922,7 +923,13 @@ Idle == \A q \in Procs : pc[q] = "idle"
 BeginT(m) ==
   LET o == [NoOp EXCEPT !.u = m, !.keep = m.keep, !.nohooks = m.nohooks, !.ver = m.ver,
                         !.lim = m.lim, !.cleanup = m.cleanup] IN
-  CASE m.kind = "install"   -> LET o1 == [o EXCEPT !.tgtman = ChartMan(m.chart)] IN
+  CASE m.kind = "install"   -> LET crds == IF m.dry /\ m.incCRDs THEN Range(ChartCRDs(m.chart)) ELSE {}
+                                   \* (the included CRD documents are built and pre-flighted like any resource of the manifest;
+                                   \*  they are written in front of the sorted templates: kind rank 0)
+                                   man  == [r \in (DOMAIN ChartMan(m.chart)) \cup crds |->
+                                             IF r \in crds THEN [kind |-> "IncludedCRD", f1 |-> "-", f2 |-> "-", pol |-> "none", ver |-> "v1"]
+                                             ELSE ChartMan(m.chart)[r]]
+                                   o1 == [o EXCEPT !.tgtman = man] IN
                                IF m.clientOnly THEN Done(o1, "ok")
                                ELSE IF m.dry THEN ICRDStart(o1) ELSE [pc |-> "I_Name", op |-> o1]
     [] m.kind = "upgrade"   -> IF m.install THEN [pc |-> "UI_Hist", op |-> o] ELSE [pc |-> "U_Last", op |-> o]
